@@ -65,6 +65,8 @@ pub struct C07 {
     sh: FundingShadow,
     band: BandTracker,
     expect: Option<(String, String)>, // (signature context, detail) when all antecedents hold
+    /// pre-state quantities used to tell WHICH subtraction underflowed: (margin, margin after the realised PnL)
+    sub_ctx: (u128, Option<u128>),
 }
 
 impl Monitor for C07 {
@@ -170,6 +172,10 @@ impl Monitor for C07 {
         let remclass = if predicted_partial { "partial" } else if remaining.is_zero() { "rem=0" } else { "rem>0" };
         let feed = if w.cfg.feed == FeedKind::Real { "real" } else { "mock" };
         let partial = if e.partial == 0 { "p0" } else if e.partial == d { "p100" } else { "pmid" };
+        // the partial path computes margin' = margin + realised spot PnL - penalty unsigned; the first operand of an
+        // underflowing subtraction on that line is the margin or the margin after the realised PnL
+        let realized = view.pnl_for(q_whole).mul(Big::u(e.partial)).div(Big::u(d));
+        self.sub_ctx = (view.pos.margin, Big::u(view.pos.margin).add(realized).to_u128());
         r.count("antecedents-met");
         r.case(format!("{}|{}|{}|{}|vault_short={}|paused={}|{}", feed, which, class, partial, vault_short, e.paused, if view.pos.long_dir { "long" } else { "short" }));
         let pclass = if e.partial == 0 { "p0" } else { "p>0" };
@@ -196,12 +202,22 @@ impl Monitor for C07 {
             // signature: oracle kind, error class and the context that error class depends on
             let parts: Vec<&str> = ctx.split('|').collect();
             let ec = err_class(&st.out.err_text());
+            // which unsigned subtraction underflowed: the first operand of the error names it
+            let nums: Vec<u128> = st.out.err_text().split(|c: char| !c.is_ascii_digit()).filter_map(|t| t.parse::<u128>().ok()).collect();
+            let sub_tag = if ec.contains("Cannot Sub") {
+                match nums.first() {
+                    Some(a) if *a == self.sub_ctx.0 || Some(*a) == self.sub_ctx.1 => "|sub:margin",
+                    _ => "|sub:other",
+                }
+            } else {
+                ""
+            };
             let sig_ctx = if ec.contains("transfer failure") {
                 parts[3].to_string()
             } else if ec.contains("parsing into type") {
                 "oracle-read".to_string()
             } else {
-                format!("{}|{}", parts[1], parts[2])
+                format!("{}|{}{}", parts[1], parts[2], sub_tag)
             };
             r.violation(
                 "C07",
